@@ -125,8 +125,11 @@ CHECKS["C15"] = dict(
          "lists equal the extracted model's on the same duals; 1D/2D requests rejected on both conversion paths (debug build, so an unchecked None would trap).",
     note="Proved in addition (C15_built_cells_are_well_formed): every cell the exact model builds, for every input, has vertices with three distinct in-range planes and "
          "dual triangles forming a closed oriented surface (each directed edge matched by its reverse); the walk of sort_face_vertices only permutes the face's vertex list and "
-         "every placed vertex shares the searched plane with its predecessor (consecutive vertices are joined by an edge). Partial: Euler's relation itself and that the "
-         "walk closes up (last vertex adjacent to the first) are checked per cell, not proved; the type-state invariant relies on Rust privacy.", design="5 C15")
+         "every placed vertex shares the searched plane with its predecessor (consecutive vertices are joined by an edge). The walk closes up (C15_face_walk_closes_up): whenever "
+         "the duals form a closed oriented surface in which every directed edge occurs exactly once - a decidable predicate, evaluated by the extracted model on the duals of "
+         "every compared cell and counted in the evidence - every vertex of a sorted face list and its cyclic successor (incl. the pair placed by elimination and last-first) share "
+         "the face's plane and one more. Partial: that every built cell has no repeated directed edge is checked per cell, not proved (it is false for abstract removed sets whose "
+         "boundary is a 2-cycle); Euler's relation is checked per cell; the type-state invariant relies on Rust privacy.", design="5 C15")
 CHECKS["C20"] = dict(
     technique="Coq proof of the ring-by-ring kNN search (bounded heap as sorted list, cell skipping, ring termination) and of both pruning bounds + extracted model and exact brute force run against the hooked code",
     text="Theorems: for every list of rings of cells whose bounds are admissible, every k: the search returns the k nearest candidates in increasing distance (= first k of the "
